@@ -230,6 +230,10 @@ def run(ctx):
 
     def mag(kind=None, zero_ok=True):
         kind = kind or rng.choice(["int", "float", "float", "decimal"])
+        if rng.random() < 0.05:
+            # unusual representations of ordinary values
+            return rng.choice({"int": [2**53 + 1, -(10**17), 1, -1], "float": [5.0, -12.0, 1e12, 0.5, -0.25],
+                               "decimal": [Decimal("1E+2"), Decimal("5"), Decimal("-2.50"), Decimal("1.2E-3"), Decimal("-7")]}[kind])
         r = rng.random()
         if zero_ok and r < 0.07:
             v = 0
